@@ -618,7 +618,7 @@ Proof.
 Qed.
 
 (* the strict decoder refines: dropping the guards *)
-Lemma rd_u32_uint bs v r : rd_u32 bs = Some (v, r) -> rd_uint bs = Some (v, r).
+Lemma rd_u32_uint bs y : rd_u32 bs = Some y -> rd_uint bs = Some y.
 Proof. unfold rd_u32. destruct (rd_uint bs) as [[v0 r0]|]; cbn [obnd]; [|discriminate]. destruct (v0 <? 4294967296); congruence. Qed.
 Lemma fld_mono {A} b (rd1 rd2 : list N -> option (A * list N)) mv bs x :
   (forall bs y, rd1 bs = Some y -> rd2 bs = Some y) -> fld b rd1 mv bs = Some x -> fld b rd2 mv bs = Some x.
@@ -941,4 +941,912 @@ Proof.
   - intros ->. cbn [negb andb] in E25. apply N.eqb_neq in E25.
     rewrite (ctrap_dim_eq n1 wr hr n2 n3 Ety E25 Hw Hh). cbn [fst snd].
     destruct R. constructor; cbn; auto.
+Qed.
+
+(* ---- PROPERTY *)
+Definition wprop (p : prop) : rprop := view_prop (fun r => r) p.
+
+Lemma s_pval_ok bs v r : cov_pval bs = Some (v, r) -> s_pval (mkS bs None) = ROk (view_val v) (mkS r None).
+Proof.
+  unfold cov_pval. destruct (small1 bs) eqn:Es; [|discriminate].
+  apply small1_cons in Es. destruct Es as (ty & t & -> & Hty).
+  unfold rd_pval. rewrite rd_uint_small1 by exact Hty. cbn [obnd].
+  unfold s_pval, rd1. cbn [s_bs s_err].
+  destruct (ty <? 8) eqn:E8.
+  - destruct (rd_real_by ty t) as [[x r0]|] eqn:E; cbn [obnd]; [|discriminate]. intros [= <- <-].
+    rewrite (s_real_by_ok _ _ _ _ E). reflexivity.
+  - destruct ty as [|p]; [discriminate|].
+    repeat (destruct p as [p|p|]; try discriminate);
+      first
+        [ solve [destruct (rd_uint t) as [[n r0]|] eqn:E; cbn [obnd]; [|discriminate]; intros [= <- <-];
+                 rewrite (s_uint_ok _ _ _ E); reflexivity]
+        | solve [destruct (rd_int t) as [[n r0]|] eqn:E; cbn [obnd]; [|discriminate]; intros [= <- <-];
+                 rewrite (s_int_ok _ _ _ E); reflexivity]
+        | solve [destruct (rd_string t) as [[n r0]|] eqn:E; cbn [obnd]; [|discriminate]; intros [= <- <-];
+                 unfold rbind; rewrite (s_string_ok false _ _ _ E); reflexivity] ].
+Qed.
+
+Lemma s_pvals_ok : forall k fuel bs l r acc,
+  rd_n cov_pval k bs = Some (l, r) -> (k <= fuel)%nat ->
+  s_pvals fuel (N.of_nat k) acc (mkS bs None) = ROk (rev acc ++ map view_val l) (mkS r None).
+Proof.
+  induction k as [|k IH]; intros fuel bs l r acc H Hf.
+  - cbn [rd_n] in H. injection H as <- <-. cbn [map]. rewrite app_nil_r. destruct fuel; reflexivity.
+  - cbn [rd_n] in H. destruct (cov_pval bs) as [[v bs1]|] eqn:E; cbn [obnd] in H; [|discriminate].
+    destruct (rd_n cov_pval k bs1) as [[l0 r0]|] eqn:E2; cbn [obnd] in H; [|discriminate].
+    injection H as <- <-. destruct fuel as [|f]; [lia|].
+    cbn [s_pvals]. replace (N.of_nat (S k) =? 0) with false by (symmetry; apply N.eqb_neq; lia).
+    cbn [s_bs s_err]. rewrite (s_pval_ok _ _ _ E).
+    replace (N.of_nat (S k) - 1) with (N.of_nat k) by lia.
+    assert (Hm : match bs with [] => s_pvals f (N.of_nat k) (view_val v :: acc) (mkS bs1 None)
+                          | _ :: _ => s_pvals f (N.of_nat k) (view_val v :: acc) (mkS bs1 None) end
+                 = ROk (rev acc ++ map view_val (v :: l0)) (mkS r0 None)).
+    { rewrite (IH f bs1 l0 r0 (view_val v :: acc) E2) by lia. cbn [rev map]. rewrite <- app_assoc.
+      destruct bs; reflexivity. }
+    destruct bs; exact Hm.
+Qed.
+
+Lemma m_prop_vals_ok info m q bs vs r :
+  modal_rel m q ->
+  (if bit info 3 then
+     if 0 <? N.shiftr info 4 then None
+     else match m_pvals m with Some v => Some (v, bs) | None => None end
+   else
+     let u := N.shiftr info 4 in
+     let? '(cnt, bs) := (if u =? 15 then rd_uint bs else Some (u, bs)) in
+     rd_count cov_pval cnt bs) = Some (vs, r) ->
+  m_prop_vals info (r_pvals q) (mkS bs None) = ROk (map view_val vs) (mkS r None).
+Proof.
+  intros R. unfold m_prop_vals, tb, bit. destruct (N.testbit info 3).
+  - destruct (0 <? N.shiftr info 4); [discriminate|].
+    pose proof (mr_pvals _ _ R) as Hv. destruct (m_pvals m); [|discriminate]. intros [= <- <-]. rewrite Hv. reflexivity.
+  - cbv zeta. unfold rbind, lift, rret.
+    destruct (N.shiftr info 4 =? 15).
+    + destruct (rd_uint bs) as [[cnt bs1]|] eqn:E; cbn [obnd]; [|discriminate]. intros H.
+      rewrite (s_uint_ok _ _ _ E). cbn [s_bs]. unfold rd_count in H.
+      destruct (N.of_nat (length bs1) <? cnt) eqn:El; [discriminate|]. apply N.ltb_ge in El.
+      rewrite <- (N2Nat.id cnt). rewrite (s_pvals_ok _ _ _ _ _ [] H) by lia. reflexivity.
+    + cbn [obnd]. intros H. cbn [s_bs]. unfold rd_count in H.
+      destruct (N.of_nat (length bs) <? N.shiftr info 4) eqn:El; [discriminate|]. apply N.ltb_ge in El.
+      rewrite <- (N2Nat.id (N.shiftr info 4)). rewrite (s_pvals_ok _ _ _ _ _ [] H) by lia. reflexivity.
+Qed.
+
+Lemma with_prop_rel m q nm vs :
+  modal_rel m q ->
+  modal_rel (mkM (m_abs m) (m_rep m) (m_g m) (m_t m) (m_p m) (Some nm) (Some vs))
+            (with_prop q (Some (fst nm)) (map view_val vs)).
+Proof. intros []. constructor; cbn; auto. Qed.
+
+(* LAST_PROPERTY: info = 0x08 *)
+Lemma rd_last_property_ok m q bs p m' bs' :
+  modal_rel m q -> cov_property 29 m bs = Some (p, m', bs') ->
+  exists q', m_property q 8 (mkS bs None) = ROk (wprop p, q') (mkS bs' None) /\ modal_rel m' q'.
+Proof.
+  intros R H. unfold cov_property in H. cbn [N.eqb Pos.eqb] in H.
+  pose proof (mr_pname _ _ R) as Hn. pose proof (mr_pvals _ _ R) as Hv.
+  destruct (m_pname m) as [[n sd]|] eqn:En; [|discriminate]. destruct (m_pvals m) as [vs|] eqn:Evs; [|discriminate].
+  injection H as <- <- <-. cbn [fst] in Hn.
+  exists (with_prop q (Some n) (map view_val vs)). split.
+  - unfold m_property, f_name, m_prop_vals, rbind, rret, tb.
+    change (N.testbit 8 2) with false. change (N.testbit 8 3) with true. cbv beta iota.
+    rewrite Hn, Hv. reflexivity.
+  - destruct R. constructor; cbn; auto; try (rewrite En; cbn; auto); try (rewrite Evs; auto).
+Qed.
+
+Lemma rd_property_ok m q info bs p m' bs' :
+  modal_rel m q -> cov_property 28 m (info :: bs) = Some (p, m', bs') ->
+  exists q', m_property q info (mkS bs None) = ROk (wprop p, q') (mkS bs' None) /\ modal_rel m' q'.
+Proof.
+  intros R H. unfold cov_property in H. cbn [N.eqb Pos.eqb rd_byte obnd] in H.
+  destruct (if bit info 2
+            then let? '(n, r) := rd_nref (bit info 1) bs in Some (n, bit info 0, r)
+            else match m_pname m with Some v => Some (v, bs) | None => None end) as [[nm bs1]|] eqn:En;
+    cbn [obnd] in H; [|discriminate].
+  match type of H with obnd ?x _ = _ => destruct x as [[vs bs2]|] eqn:Ev end; cbn [obnd] in H; [|discriminate].
+  injection H as <- <- <-.
+  exists (with_prop q (Some (fst nm)) (map view_val vs)). split.
+  - unfold m_property, rbind, rret.
+    assert (Hname : f_name (tb info 2) (tb info 1) (r_pname q) (mkS bs None) = ROk (fst nm, Some (fst nm)) (mkS bs1 None)).
+    { unfold f_name, tb, bit in *. destruct (N.testbit info 2).
+      - destruct (rd_nref (N.testbit info 1) bs) as [[n r]|] eqn:E; cbn [obnd] in En; [|discriminate].
+        injection En as <- <-. unfold rbind, rret. rewrite (f_nref_ok _ _ _ _ E). reflexivity.
+      - pose proof (mr_pname _ _ R) as Hn. destruct (m_pname m) as [v|]; [|discriminate].
+        injection En as <- <-. rewrite Hn. reflexivity. }
+    rewrite Hname. cbv beta iota. rewrite (m_prop_vals_ok _ _ _ _ _ _ R Ev). reflexivity.
+  - apply with_prop_rel. exact R.
+Qed.
+
+(* ================================================================== the covered decoder is a restriction of the strict one *)
+Ltac rsplit := repeat match goal with p : (_ * _)%type |- _ => destruct p end.
+Ltac rstep H :=
+  cbv zeta in H; cbv zeta;
+  match type of H with
+  | obnd ?x _ = Some _ =>
+      let E := fresh "E" in
+      destruct x eqn:E; cbn [obnd] in H; [|discriminate H]; rsplit;
+      first [ rewrite E
+            | rewrite (fld_mono _ _ _ _ _ _ rd_u32_uint E)
+            | rewrite (fld_mono _ _ _ _ _ _ (cov_plist_rd _) E)
+            | rewrite (cov_rep_fld_rd _ _ _ _ E)
+            | idtac ];
+      cbn [obnd]
+  | (if ?c then None else _) = Some _ => destruct c eqn:?; [discriminate H|]
+  end.
+Ltac rdone H := injection H as <- <- <-; reflexivity.
+
+Lemma cov_rectangle_spec m bs x : cov_rectangle m bs = Some x -> dec_rectangle m bs = Some x.
+Proof.
+  destruct x as [[e m'] bs']. intros H. unfold cov_rectangle in H. unfold dec_rectangle.
+  do 5 rstep H.
+  do 4 rstep H. rdone H.
+Qed.
+Lemma cov_polygon_spec m bs x : cov_polygon m bs = Some x -> dec_polygon m bs = Some x.
+Proof.
+  destruct x as [[e m'] bs']. intros H. unfold cov_polygon in H. unfold dec_polygon.
+  do 8 rstep H. rdone H.
+Qed.
+Lemma cov_circle_spec m bs x : cov_circle m bs = Some x -> dec_circle m bs = Some x.
+Proof.
+  destruct x as [[e m'] bs']. intros H. unfold cov_circle in H. unfold dec_circle.
+  do 8 rstep H. rdone H.
+Qed.
+Lemma cov_trapezoid_spec code m bs x : cov_trapezoid code m bs = Some x -> dec_trapezoid code m bs = Some x.
+Proof.
+  destruct x as [[e m'] bs']. intros H. unfold cov_trapezoid in H. unfold dec_trapezoid.
+  do 10 rstep H. rdone H.
+Qed.
+Lemma cov_text_spec m bs x : cov_text m bs = Some x -> dec_text m bs = Some x.
+Proof.
+  destruct x as [[e m'] bs']. intros H. unfold cov_text in H. unfold dec_text.
+  do 8 rstep H. rdone H.
+Qed.
+
+Lemma cov_path_spec m bs x : cov_path m bs = Some x -> dec_path m bs = Some x.
+Proof.
+  destruct x as [[e m'] bs']. intros H. unfold cov_path in H. unfold dec_path.
+  do 4 rstep H.
+  (* the extension scheme: one byte below 16 *)
+  cbv zeta in H; cbv zeta.
+  match type of H with obnd ?x _ = _ => destruct x as [[[es ee] be]|] eqn:Ee end; cbn [obnd] in H; [|discriminate].
+  assert (Ee' : (if bit n 7
+                 then let? '(sch, bs) := rd_uint l2 in
+                      if 16 <=? sch then None else
+                      let? '(es, bs) := ext_fld (N.land (N.shiftr sch 2) 3) n2 (g_exs (m_g m)) bs in
+                      let? '(ee, bs) := ext_fld (N.land sch 3) n2 (g_exe (m_g m)) bs in Some (es, ee, bs)
+                 else match g_exs (m_g m), g_exe (m_g m) with Some a, Some b => Some (a, b, l2) | _, _ => None end)
+                = Some (es, ee, be)).
+  { destruct (bit n 7); [|exact Ee].
+    destruct (rd_byte l2) as [[sch t]|] eqn:Es; cbn [obnd] in Ee; [|discriminate].
+    destruct (16 <=? sch) eqn:E16; [discriminate|]. apply N.leb_gt in E16.
+    rewrite (rd_byte_uint _ _ _ Es) by lia. cbn [obnd]. replace (16 <=? sch) with false by (symmetry; apply N.leb_gt; lia).
+    exact Ee. }
+  rewrite Ee'. cbn [obnd]. rstep H. rstep H. do 3 rstep H. rdone H.
+Qed.
+
+Lemma cov_ctrapezoid_spec any25 m bs x : cov_ctrapezoid_gen any25 m bs = Some x -> dec_ctrapezoid m bs = Some x.
+Proof.
+  destruct x as [[e m'] bs']. intros H. unfold cov_ctrapezoid_gen in H. unfold dec_ctrapezoid.
+  do 3 rstep H. cbv zeta in H; cbv zeta.
+  match type of H with obnd ?x _ = _ => destruct x as [[ty bt]|] eqn:Et end; cbn [obnd] in H; [|discriminate].
+  destruct ((26 <=? ty) || (negb any25 && (ty =? 25))) eqn:Ety; [discriminate|].
+  apply orb_false_elim in Ety. destruct Ety as [Ety _].
+  assert (Et' : fld (bit n 7) rd_uint (g_ctype (m_g m)) l1 = Some (ty, bt)).
+  { unfold fld in *. destruct (bit n 7); [|exact Et]. apply rd_byte_uint; [exact Et|]. apply N.leb_gt in Ety. lia. }
+  rewrite Et'. cbn [obnd]. rewrite Ety. do 5 rstep H. rdone H.
+Qed.
+
+Lemma cov_placement_spec code m bs x : cov_placement code m bs = Some x -> dec_placement code m bs = Some x.
+Proof.
+  destruct x as [[e m'] bs']. intros H. unfold cov_placement in H. unfold dec_placement.
+  do 2 rstep H. cbv zeta in H; cbv zeta.
+  match type of H with obnd ?x _ = _ => destruct x as [[tr bt]|] eqn:Et end; cbn [obnd] in H; [|discriminate].
+  assert (Et' : (if code =? 17 then Some (PT_quarter (N.land (N.shiftr n 1) 3), l0)
+                 else let? '(mag, bs) := (if bit n 2 then let? '(v, r) := rd_real l0 in Some (Some v, r) else Some (None, l0)) in
+                      let? '(ang, bs) := (if bit n 1 then let? '(v, r) := rd_real bs in Some (Some v, r) else Some (None, bs)) in
+                      Some (PT_general mag ang, bs)) = Some (tr, bt)).
+  { destruct (code =? 17); [exact Et|].
+    destruct (if bit n 2 then let? '(v, r) := cov_real l0 in Some (Some v, r) else Some (None, l0)) as [[mag r1]|] eqn:Em;
+      cbn [obnd] in Et; [|discriminate].
+    assert (Em' : (if bit n 2 then let? '(v, r) := rd_real l0 in Some (Some v, r) else Some (None, l0)) = Some (mag, r1)).
+    { destruct (bit n 2); [|exact Em]. destruct (cov_real l0) as [[v r]|] eqn:Ec; cbn [obnd] in Em; [|discriminate].
+      rewrite (cov_real_rd _ _ Ec). exact Em. }
+    rewrite Em'. cbn [obnd].
+    destruct (if bit n 1 then let? '(v, r) := cov_real r1 in Some (Some v, r) else Some (None, r1)) as [[ang r2]|] eqn:Ea;
+      cbn [obnd] in Et; [|discriminate].
+    assert (Ea' : (if bit n 1 then let? '(v, r) := rd_real r1 in Some (Some v, r) else Some (None, r1)) = Some (ang, r2)).
+    { destruct (bit n 1); [|exact Ea]. destruct (cov_real r1) as [[v r]|] eqn:Ec; cbn [obnd] in Ea; [|discriminate].
+      rewrite (cov_real_rd _ _ Ec). exact Ea. }
+    rewrite Ea'. cbn [obnd]. exact Et. }
+  rewrite Et'. cbn [obnd]. do 3 rstep H. rdone H.
+Qed.
+
+Lemma rd_n_mono {A} (rd1 rd2 : list N -> option (A * list N)) :
+  (forall bs y, rd1 bs = Some y -> rd2 bs = Some y) ->
+  forall k bs y, rd_n rd1 k bs = Some y -> rd_n rd2 k bs = Some y.
+Proof.
+  intros Hm. induction k as [|k IH]; intros bs y H; cbn [rd_n] in *; [exact H|].
+  destruct (rd1 bs) as [[a bs1]|] eqn:E; cbn [obnd] in H; [|discriminate]. rewrite (Hm _ _ E). cbn [obnd].
+  destruct (rd_n rd1 k bs1) as [[l r]|] eqn:E2; cbn [obnd] in H; [|discriminate]. rewrite (IH _ _ E2). exact H.
+Qed.
+Lemma rd_count_mono {A} (rd1 rd2 : list N -> option (A * list N)) n bs y :
+  (forall bs y, rd1 bs = Some y -> rd2 bs = Some y) -> rd_count rd1 n bs = Some y -> rd_count rd2 n bs = Some y.
+Proof. intros Hm. unfold rd_count. destruct (N.of_nat (length bs) <? n); [discriminate|]. apply rd_n_mono. exact Hm. Qed.
+Lemma cov_pval_rd bs y : cov_pval bs = Some y -> rd_pval bs = Some y.
+Proof. unfold cov_pval. destruct (small1 bs); [auto|discriminate]. Qed.
+
+Lemma cov_property_spec code m bs x : cov_property code m bs = Some x -> dec_property code m bs = Some x.
+Proof.
+  destruct x as [[p m'] bs']. intros H. unfold cov_property in H. unfold dec_property.
+  destruct (code =? 29); [exact H|].
+  do 2 rstep H. cbv zeta in H; cbv zeta.
+  match type of H with obnd ?x _ = _ => destruct x as [[vs bv]|] eqn:Ev end; cbn [obnd] in H; [|discriminate].
+  assert (Ev' : (if bit n 3
+                 then if 0 <? N.shiftr n 4 then None else match m_pvals m with Some v => Some (v, l0) | None => None end
+                 else let? '(cnt, bs) := (if N.shiftr n 4 =? 15 then rd_uint l0 else Some (N.shiftr n 4, l0)) in
+                      rd_count rd_pval cnt bs) = Some (vs, bv)).
+  { destruct (bit n 3); [exact Ev|].
+    destruct (if N.shiftr n 4 =? 15 then rd_uint l0 else Some (N.shiftr n 4, l0)) as [[cnt bc]|]; cbn [obnd] in *; [|discriminate].
+    apply (rd_count_mono cov_pval rd_pval); [exact cov_pval_rd|exact Ev]. }
+  rewrite Ev'. cbn [obnd]. rdone H.
+Qed.
+
+Lemma cov_record_id ois d id t r : cov_record ois d (id :: t) = Some r -> id < 30.
+Proof.
+  unfold cov_record. cbn [rd_byte obnd]. destruct id as [|p]; [lia|].
+  repeat (destruct p as [p|p|]; try discriminate); intros _; lia.
+Qed.
+
+Lemma cov_add_name_spec d which ex bs y : cov_add_name d which ex bs = Some y -> add_name d which ex bs = Some y.
+Proof.
+  unfold cov_add_name. destruct (add_name d which ex bs) as [[d1 bs1]|]; cbn [obnd]; [|discriminate].
+  destruct ex; [|auto]. destruct (rd_string bs) as [[s r]|]; [|discriminate].
+  destruct (rd_uint r) as [[k r2]|]; [|discriminate]. destruct (k <? lim26); [auto|discriminate].
+Qed.
+Lemma cov_finalize_spec d l : cov_finalize d = Some l -> finalize d = Some l.
+Proof. unfold cov_finalize. destruct (omap _ _); cbn [obnd]; [auto|discriminate]. Qed.
+Lemma cov_elem_step_spec d r1 r2 y :
+  (forall x, r1 = Some x -> r2 = Some x) -> cov_elem_step d r1 = Some y -> elem_step d r2 = Some y.
+Proof.
+  intros Hm. unfold cov_elem_step, elem_step. destruct r1 as [[[e m] bs]|]; cbn [obnd]; [|discriminate].
+  rewrite (Hm _ eq_refl). cbn [obnd]. auto.
+Qed.
+
+Lemma cov_record_spec ois d bs r : cov_record ois d bs = Some r -> dec_record ois d bs = Some r.
+Proof.
+  intros H. destruct bs as [|id t]; [discriminate|].
+  pose proof (cov_record_id _ _ _ _ _ H) as Hid.
+  unfold cov_record in H. unfold dec_record. cbn [rd_byte obnd] in H. rewrite rd_uint_small1 by lia. cbn [obnd].
+  destruct id as [|p]; [exact H|].
+  repeat (destruct p as [p|p|]; try (exfalso; lia));
+    first
+      [ exact H
+      | (* names *)
+        solve [match type of H with obnd (cov_add_name ?d ?w ?e ?b) _ = _ =>
+                 destruct (cov_add_name d w e b) as [[d' b']|] eqn:E; cbn [obnd] in H; [|discriminate];
+                 rewrite (cov_add_name_spec _ _ _ _ _ E); exact H end]
+      | (* END *)
+        solve [destruct (end_ok ois t); [|discriminate];
+               destruct (cov_finalize d) as [l|] eqn:E; cbn [obnd] in H; [|discriminate];
+               rewrite (cov_finalize_spec _ _ E); exact H]
+      | (* CELL by number *)
+        solve [destruct (rd_uint t) as [[n b]|]; cbn [obnd] in *; [|discriminate];
+               destruct (existsb (cell_has_num n) (d_cells d)); [discriminate|exact H]]
+      | (* elements *)
+        solve [eapply cov_elem_step_spec; [|exact H]; intros x Hx;
+               first [ apply cov_placement_spec | apply cov_text_spec | apply cov_rectangle_spec | apply cov_polygon_spec
+                     | apply cov_path_spec | apply cov_trapezoid_spec | apply (cov_ctrapezoid_spec false)
+                     | apply cov_circle_spec ]; exact Hx]
+      | (* properties *)
+        solve [match type of H with obnd (cov_property ?c ?m ?b) _ = _ =>
+                 destruct (cov_property c m b) as [[[p0 m0] b0]|] eqn:E; cbn [obnd] in H; [|discriminate];
+                 rewrite (cov_property_spec _ _ _ _ E); cbn [obnd];
+                 unfold cov_add_prop in H; destruct (d_target d); try discriminate; exact H end] ].
+Qed.
+
+Lemma cov_loop_spec : forall f ois d bs L, cov_loop f ois d bs = Some L -> dec_loop f ois d bs = Some L.
+Proof.
+  induction f as [|f IH]; intros ois d bs L H; [discriminate|]. cbn [cov_loop dec_loop] in *.
+  destruct (cov_record ois d bs) as [[l|d' bs']|] eqn:E; [| |discriminate]; rewrite (cov_record_spec _ _ _ _ E).
+  - exact H.
+  - apply IH. exact H.
+Qed.
+
+Theorem cov_refines_spec_lemma : forall bs L, cov_oas_decode bs = Some L -> spec_oas_decode bs = Some L.
+Proof.
+  intros bs L H. unfold cov_oas_decode in H. unfold spec_oas_decode.
+  destruct (strip_prefix magic bs) as [b1|]; cbn [obnd] in *; [|discriminate].
+  destruct (rd_byte b1) as [[id b2]|] eqn:Eid; cbn [obnd] in H; [|discriminate].
+  destruct (negb (id =? 1)) eqn:E1; [discriminate|].
+  assert (Hid : id = 1) by (apply negb_false_iff in E1; apply N.eqb_eq in E1; exact E1).
+  rewrite (rd_byte_uint _ _ _ Eid) by lia. cbn [obnd]. rewrite E1.
+  destruct (rd_string b2) as [[v b3]|]; cbn [obnd] in *; [|discriminate].
+  destruct (strip_prefix version_1_0 v); cbn [obnd] in *; [|discriminate].
+  destruct (negb (length v =? 3)%nat); [discriminate|].
+  destruct (cov_real b3) as [[u b4]|] eqn:Eu; cbn [obnd] in H; [|discriminate].
+  rewrite (cov_real_rd _ _ Eu). cbn [obnd].
+  destruct (rd_uint b4) as [[flag b5]|]; cbn [obnd] in *; [|discriminate].
+  destruct (1 <? flag); [discriminate|].
+  destruct (if flag =? 0 then rd_count rd_uint 12 b5 else Some ([], b5)) as [[o b6]|]; cbn [obnd] in *; [|discriminate].
+  apply cov_loop_spec. exact H.
+Qed.
+
+(* ================================================================== file level: the state of the strict decoder vs the reader *)
+Definition wcell (c : cell) : rcell :=
+  mkGC (c_name c) (map wprop (c_props c)) (map (fun ep => (welem (fst ep), map wprop (snd ep))) (c_elems c)).
+
+Definition te_ok (nul : bool) (e : tentry) (s : list N) : Prop :=
+  if nul then te_bytes e = Some s else match te_bytes e with Some b => b = s | None => s = [] end.
+Definition tab_rel (nul : bool) (t : table) (rt : rtable) : Prop :=
+  forall k s, lookup t k = Some s -> exists e, tab_get rt k = Some e /\ te_ok nul e s.
+Definition props_empty (rt : rtable) : Prop := forall ke, In ke (t_items rt) -> te_props (snd ke) = [].
+Definition target_rel (tg : ptarget) (rt : rtarget) : Prop :=
+  match tg with
+  | T_lib => rt = RT_lib | T_cell => rt = RT_cell | T_elem => rt = RT_elem
+  | T_cellname n => rt = RT_name 0 n
+  | T_other => True
+  end.
+(* reference numbers of the cells declared by number: (c7) keeps them distinct *)
+Definition nums (l : list cell) : list N :=
+  flat_map (fun c => match c_name c with NNum k => [k] | NName _ => [] end) l.
+Definition next_of (d : dstate) (w : N) : N :=
+  match w with 0 => d_cn_next d | 1 => d_ts_next d | 2 => d_pn_next d | _ => d_ps_next d end.
+Definition table_of (d : dstate) (w : N) : table :=
+  match w with 0 => d_cellnames d | 1 => d_textstrings d | 2 => d_propnames d | _ => d_propstrings d end.
+
+Record srel (d : dstate) (st : rstate) : Prop := mkSR {
+  sr_modal : modal_rel (d_modal d) (q_modal st);
+  sr_unit : q_unit st = d_unit d;
+  sr_lprops : q_lprops st = map wprop (d_lprops d);
+  sr_cells : q_cells st = map wcell (d_cells d);
+  sr_target : target_rel (d_target d) (q_target st);
+  sr_tgdef : match d_target d with T_cellname n => lookup (d_cellnames d) n <> None | _ => True end;
+  sr_cn : tab_rel true (d_cellnames d) (q_cn st);
+  sr_ts : tab_rel true (d_textstrings d) (q_ts st);
+  sr_pn : tab_rel true (d_propnames d) (q_pn st);
+  sr_ps : tab_rel false (d_propstrings d) (q_ps st);
+  sr_next : forall w, w < 4 -> mode_get (d_table_mode d) w <> 2 -> next_of d w = t_count (get_table st w);
+  sr_cnprops : forall k s e, lookup (d_cellnames d) k = Some s -> tab_get (q_cn st) k = Some e ->
+               te_props e = map wprop (cn_props_of (d_cn_props d) k);
+  sr_cnkeys : forall n p, In (n, p) (d_cn_props d) -> lookup (d_cellnames d) n <> None;
+  sr_cnall : forall ke p, In ke (t_items (q_cn st)) -> In p (te_props (snd ke)) ->
+             exists n p0, In (n, p0) (d_cn_props d) /\ p = wprop p0;
+  sr_ts_e : props_empty (q_ts st);
+  sr_pn_e : props_empty (q_pn st);
+  sr_ps_e : props_empty (q_ps st);
+  sr_nodup : NoDup (nums (d_cells d))
+}.
+
+Lemma modal0_rel q :
+  modal_rel modal0
+    (mkRM true (r_layer q) (r_dtype q) (r_tlayer q) (r_ttype q) (0, 0)%Z (0, 0)%Z (0, 0)%Z (r_w q) (r_h q) (r_rep q)
+          (r_text q) (r_pcell q) (r_poly q) (r_path q) (r_hw q) (r_exs q) (r_exe q) (r_ctype q) (r_rad q)
+          (r_pname q) (r_pvals q)).
+Proof. constructor; cbn; auto. Qed.
+
+Lemma skip_interval_ok bs r : skip_interval bs = Some r -> skip_interval_r (mkS bs None) = mkS r None.
+Proof.
+  unfold skip_interval, skip_interval_r. destruct (rd_uint bs) as [[ty b1]|] eqn:E; cbn [obnd]; [|discriminate].
+  rewrite (s_uint_ok _ _ _ E).
+  destruct ty as [|p]; [intros [= <-]; reflexivity|].
+  repeat (destruct p as [p|p|]; try discriminate).
+  - destruct (rd_uint b1) as [[a b2]|] eqn:E1; cbn [obnd]; [|discriminate]. intros [= <-].
+    cbn [N.ltb N.compare N.eqb Pos.eqb]. rewrite (s_uint_ok _ _ _ E1). reflexivity.
+  - destruct (rd_uint b1) as [[a b2]|] eqn:E1; cbn [obnd]; [|discriminate].
+    destruct (rd_uint b2) as [[a2 b3]|] eqn:E2; cbn [obnd]; [|discriminate]. intros [= <-].
+    cbn [N.ltb N.compare N.eqb Pos.eqb]. rewrite (s_uint_ok _ _ _ E1). cbn [snd]. rewrite (s_uint_ok _ _ _ E2). reflexivity.
+  - destruct (rd_uint b1) as [[a b2]|] eqn:E1; cbn [obnd]; [|discriminate]. intros [= <-].
+    cbn [N.ltb N.compare N.eqb Pos.eqb]. rewrite (s_uint_ok _ _ _ E1). reflexivity.
+  - destruct (rd_uint b1) as [[a b2]|] eqn:E1; cbn [obnd]; [|discriminate]. intros [= <-].
+    cbn [N.ltb N.compare N.eqb Pos.eqb]. rewrite (s_uint_ok _ _ _ E1). reflexivity.
+Qed.
+
+Definition plain_target (tg : ptarget) : Prop := match tg with T_cellname _ => False | _ => True end.
+
+Lemma srel_upd_cells d st m q cs tg rtg :
+  srel d st -> modal_rel m q -> target_rel tg rtg -> plain_target tg -> NoDup (nums cs) ->
+  srel (upd_cells d m cs tg) (set_cells st q (map wcell cs) rtg).
+Proof.
+  intros [] Hm Ht Hp Hnd. constructor; cbn; auto.
+  destruct tg; auto.
+Qed.
+
+Lemma srel_upd_modal d st m q :
+  srel d st -> modal_rel m q -> srel (upd_modal d m (d_target d)) (set_modal st q).
+Proof.
+  intros [] Hm. constructor; cbn; auto.
+Qed.
+
+Lemma srel_upd_other d st m q rtg :
+  srel d st -> modal_rel m q -> srel (upd_modal d m T_other) (set_target (set_modal st q) rtg).
+Proof.
+  intros [] Hm. constructor; cbn; auto.
+Qed.
+
+Section ElemStep.
+  Variable cov : modal -> list N -> option (element * modal * list N).
+  Variable rec : rmodal -> N -> M (relem * rmodal).
+  Hypothesis rec_ok : forall m q info bs e m' bs', modal_rel m q -> cov m (info :: bs) = Some (e, m', bs') ->
+    exists q', rec q info (mkS bs None) = ROk (welem e, q') (mkS bs' None) /\ modal_rel m' q'.
+  Hypothesis cov_nil : forall m, cov m [] = None.
+
+  Lemma elem_step_ok ptrs d st t d' bs' :
+    srel d st -> cov_elem_step d (cov (d_modal d) t) = Some (Cont d' bs') ->
+    exists st', h_element ptrs st rec (mkS t None) = H_cont st' (mkS bs' None) /\ srel d' st'.
+  Proof.
+    intros R H. unfold cov_elem_step in H.
+    destruct (cov (d_modal d) t) as [[[e m'] b]|] eqn:E; cbn [obnd] in H; [|discriminate].
+    unfold add_elem in H. destruct (d_cells d) as [|c cs] eqn:Ec; cbn [obnd] in H; [discriminate|].
+    injection H as <- <-.
+    destruct t as [|info t]; [rewrite cov_nil in E; discriminate|].
+    destruct (rec_ok _ _ _ _ _ _ _ (sr_modal _ _ R) E) as (q' & Hrec & Hrel).
+    pose proof (sr_cells _ _ R) as Hc. rewrite Ec in Hc. cbn [map] in Hc.
+    exists (add_elem_r st (welem e) q'). split.
+    - unfold h_element. rewrite Hc. unfold rd1. cbn [s_bs s_err]. rewrite Hrec. reflexivity.
+    - unfold add_elem_r. rewrite Hc. cbn [wcell gc_name gc_props gc_elems].
+      change (mkGC (c_name c) (map wprop (c_props c))
+                ((welem e, []) :: map (fun ep => (welem (fst ep), map wprop (snd ep))) (c_elems c)) :: map wcell cs)
+        with (map wcell (mkCell (c_name c) (c_props c) ((e, []) :: c_elems c) :: cs)).
+      apply srel_upd_cells; cbn; auto.
+      pose proof (sr_nodup _ _ R) as Hnd. rewrite Ec in Hnd. exact Hnd.
+  Qed.
+End ElemStep.
+
+(* ---- properties *)
+Lemma assoc_get_In : forall l k e, assoc_get l k = Some e -> In (k, e) l.
+Proof.
+  induction l as [|[k' e'] l IH]; intros k e H; cbn [assoc_get] in H; [discriminate|].
+  destruct (k' =? k) eqn:E.
+  - apply N.eqb_eq in E. injection H as <-. subst. left. reflexivity.
+  - right. apply IH. exact H.
+Qed.
+Lemma tab_get_In t k e : tab_get t k = Some e -> e = filler \/ In (k, e) (t_items t).
+Proof.
+  unfold tab_get. destruct (k <? t_count t); [|discriminate]. intros [= <-].
+  destruct (assoc_get (t_items t) k) as [e0|] eqn:E; [right; apply assoc_get_In; exact E|left; reflexivity].
+Qed.
+Lemma tab_get_cons_same t k e0 : k <? t_count t = true -> tab_get (mkTab (t_count t) ((k, e0) :: t_items t)) k = Some e0.
+Proof. intros H. unfold tab_get. cbn [t_count t_items assoc_get]. rewrite H, N.eqb_refl. reflexivity. Qed.
+Lemma tab_get_cons_other t k k' e0 : k' <> k -> tab_get (mkTab (t_count t) ((k', e0) :: t_items t)) k = tab_get t k.
+Proof.
+  intros H. unfold tab_get. cbn [t_count t_items assoc_get].
+  replace (k' =? k) with false by (symmetry; apply N.eqb_neq; exact H). reflexivity.
+Qed.
+Lemma tab_get_lt t k e : tab_get t k = Some e -> k <? t_count t = true.
+Proof. unfold tab_get. destruct (k <? t_count t); [auto|discriminate]. Qed.
+
+Lemma cn_props_of_cons_same n p l : cn_props_of ((n, p) :: l) n = p :: cn_props_of l n.
+Proof. unfold cn_props_of. cbn [filter fst]. rewrite N.eqb_refl. reflexivity. Qed.
+Lemma cn_props_of_cons_other n p l k : n <> k -> cn_props_of ((n, p) :: l) k = cn_props_of l k.
+Proof. intros H. unfold cn_props_of. cbn [filter fst]. replace (n =? k) with false by (symmetry; apply N.eqb_neq; exact H). reflexivity. Qed.
+
+Ltac proj_simpl :=
+  cbn [d_modal d_unit d_lprops d_cells d_target d_cellnames d_cn_next d_cn_props d_textstrings d_ts_next d_propnames
+       d_pn_next d_propstrings d_ps_next d_table_mode q_modal q_unit q_lprops q_cells q_target q_cn q_ts q_pn q_ps
+       upd_modal upd_cells set_modal set_target set_cells].
+Lemma w4_cases w : w < 4 -> w = 0 \/ w = 1 \/ w = 2 \/ w = 3.
+Proof. lia. Qed.
+
+Lemma prop_step_ok d st p m' q' d' :
+  srel d st -> modal_rel m' q' -> cov_add_prop d p m' = Some d' -> srel d' (add_prop_r st (wprop p) q').
+Proof.
+  intros R Hm H. unfold cov_add_prop, add_prop in H. unfold add_prop_r.
+  pose proof (sr_target _ _ R) as Ht. pose proof (sr_tgdef _ _ R) as Hd. pose proof (sr_cells _ _ R) as Hc.
+  destruct (d_target d) as [| | |n|] eqn:Etg; cbn [target_rel] in Ht; try discriminate; try rewrite Ht.
+  - (* library *) injection H as <-. destruct R. constructor; cbn; auto. rewrite sr_lprops0. reflexivity.
+  - (* cell *) destruct (d_cells d) as [|c cs] eqn:Ec; [discriminate|]. injection H as <-.
+    rewrite Hc. cbn [map wcell gc_name gc_props gc_elems].
+    change (mkGC (c_name c) (wprop p :: map wprop (c_props c))
+              (map (fun ep => (welem (fst ep), map wprop (snd ep))) (c_elems c)) :: map wcell cs)
+      with (map wcell (mkCell (c_name c) (p :: c_props c) (c_elems c) :: cs)).
+    apply srel_upd_cells; cbn; auto.
+    pose proof (sr_nodup _ _ R) as Hnd. rewrite Ec in Hnd. exact Hnd.
+  - (* element *) destruct (d_cells d) as [|c cs] eqn:Ec; [discriminate|].
+    destruct (c_elems c) as [|[e ps] es] eqn:Ee; [discriminate|]. injection H as <-.
+    rewrite Hc. cbn [map wcell gc_name gc_props gc_elems]. rewrite Ee. cbn [map fst snd].
+    change (mkGC (c_name c) (map wprop (c_props c))
+              ((welem e, wprop p :: map wprop ps) :: map (fun ep => (welem (fst ep), map wprop (snd ep))) es) :: map wcell cs)
+      with (map wcell (mkCell (c_name c) (c_props c) ((e, p :: ps) :: es) :: cs)).
+    apply srel_upd_cells; cbn; auto.
+    pose proof (sr_nodup _ _ R) as Hnd. rewrite Ec in Hnd. exact Hnd.
+  - (* cell name *)
+    injection H as <-.
+    destruct (lookup (d_cellnames d) n) as [s|] eqn:El; [|congruence].
+    destruct (sr_cn _ _ R n s El) as (e & Hg & Hb). cbn [te_ok] in Hb.
+    pose proof (tab_get_lt _ _ _ Hg) as Hlt.
+    cbn [get_table set_modal q_cn]. unfold tab_add_prop. rewrite Hg. cbn [set_table q_modal q_unit q_lprops q_cells q_ts q_pn q_ps].
+    destruct R. constructor; proj_simpl; auto.
+    + reflexivity.
+    + rewrite El. discriminate.
+    + (* cell name table *)
+      intros k s' Hk. destruct (N.eq_dec n k) as [<-|Hne].
+      * rewrite tab_get_cons_same by exact Hlt. rewrite El in Hk. injection Hk as <-. eexists. split; [reflexivity|exact Hb].
+      * rewrite tab_get_cons_other by exact Hne. apply sr_cn0. exact Hk.
+    + intros w Hw Hmd. specialize (sr_next0 w Hw Hmd).
+      destruct (w4_cases w Hw) as [-> | [-> | [-> | ->]]]; cbn in *; exact sr_next0.
+    + intros k s' e' Hk. destruct (N.eq_dec n k) as [<-|Hne].
+      * rewrite tab_get_cons_same by exact Hlt. intros [= <-]. cbn [te_props]. rewrite cn_props_of_cons_same. cbn [map].
+        f_equal. eapply (sr_cnprops0 n s' e); [exact Hk|exact Hg].
+      * rewrite tab_get_cons_other by exact Hne. rewrite cn_props_of_cons_other by exact Hne. apply (sr_cnprops0 k s' e'). exact Hk.
+    + intros n' p' [[= <- <-]|Hin]; [rewrite El; discriminate|]. eapply sr_cnkeys0. exact Hin.
+    + cbn [t_items]. intros ke p0 [<-|Hin] Hp.
+      * cbn [snd te_props] in Hp. destruct Hp as [<-|Hp]; [exists n, p; split; [left; reflexivity|reflexivity]|].
+        destruct (tab_get_In _ _ _ Hg) as [->|Hi]; [destruct Hp|].
+        destruct (sr_cnall0 _ _ Hi Hp) as (n1 & p1 & Hi1 & ->). exists n1, p1. split; [right; exact Hi1|reflexivity].
+      * destruct (sr_cnall0 _ _ Hin Hp) as (n1 & p1 & Hi1 & ->). exists n1, p1. split; [right; exact Hi1|reflexivity].
+Qed.
+
+(* ---- name records *)
+Lemma tab_set_get_same t k e : tab_get (tab_set t k e) k = Some e.
+Proof.
+  unfold tab_set, tab_get. cbn [t_count t_items assoc_get]. rewrite N.eqb_refl.
+  destruct (k <? t_count t) eqn:E; [rewrite E; reflexivity|].
+  replace (k <? k + 1) with true by (symmetry; apply N.ltb_lt; lia). reflexivity.
+Qed.
+Lemma tab_set_get_other t k e k' e' : k <> k' -> tab_get t k' = Some e' -> tab_get (tab_set t k e) k' = Some e'.
+Proof.
+  intros Hne. unfold tab_set, tab_get. cbn [t_count t_items assoc_get].
+  replace (k =? k') with false by (symmetry; apply N.eqb_neq; exact Hne).
+  destruct (k' <? t_count t) eqn:E; [|discriminate]. intros H.
+  replace (k' <? (if k <? t_count t then t_count t else k + 1)) with true; [exact H|].
+  symmetry. apply N.ltb_lt. apply N.ltb_lt in E. destruct (k <? t_count t) eqn:E2; [exact E|]. apply N.ltb_ge in E2. lia.
+Qed.
+Lemma tab_rel_set nul t rt k s e :
+  tab_rel nul t rt -> te_ok nul e s -> tab_rel nul ((k, s) :: t) (tab_set rt k e).
+Proof.
+  intros H He k' s'. cbn [lookup]. destruct (k =? k') eqn:E.
+  - apply N.eqb_eq in E. subst k'. intros [= <-]. exists e. split; [apply tab_set_get_same|exact He].
+  - apply N.eqb_neq in E. intros Hl. destruct (H _ _ Hl) as (e' & Hg & Hok). exists e'. split; [|exact Hok].
+    apply tab_set_get_other; assumption.
+Qed.
+Lemma props_empty_set rt k e : props_empty rt -> te_props e = [] -> props_empty (tab_set rt k e).
+Proof. intros H He ke [<-|Hin]; [exact He|apply H; exact Hin]. Qed.
+Lemma tab_set_count_append rt e : t_count (tab_set rt (t_count rt) e) = t_count rt + 1.
+Proof. unfold tab_set. cbn [t_count]. rewrite N.ltb_irrefl. reflexivity. Qed.
+
+Lemma cn_props_of_undefined cnp (cn : table) k :
+  (forall n p, In (n, p) cnp -> lookup cn n <> None) -> lookup cn k = None -> cn_props_of cnp k = [].
+Proof.
+  intros Hk Hl. unfold cn_props_of. induction cnp as [|[n p] l IH]; [reflexivity|].
+  cbn [filter fst]. destruct (n =? k) eqn:E.
+  - apply N.eqb_eq in E. subst n. exfalso. apply (Hk k p); [left; reflexivity|exact Hl].
+  - apply IH. intros n' p' Hin. apply (Hk n' p'). right. exact Hin.
+Qed.
+
+Lemma alloc_ok_26 k c : k < lim26 ->
+  ((c <=? k) && alloc_fails ((k + 1) * 24) && (c <? k)) = false /\ ((c <=? k) && (big_loop <=? k - c)) = false.
+Proof.
+  unfold lim26, alloc_fails, big_loop. intros H. split.
+  - replace (68719476736 <=? (k + 1) * 24) with false by (symmetry; apply N.leb_gt; lia).
+    rewrite andb_false_r. reflexivity.
+  - replace (67108864 <=? k - c) with false by (symmetry; apply N.leb_gt; lia). apply andb_false_r.
+Qed.
+
+Lemma mode_get_set_same md w v : w < 4 -> mode_get (mode_set md w v) w = v.
+Proof. intros H. destruct md as [[[a b] c] e]. destruct (w4_cases w H) as [-> | [-> | [-> | ->]]]; reflexivity. Qed.
+Lemma mode_get_set_other md w w' v : w < 4 -> w' < 4 -> w <> w' -> mode_get (mode_set md w v) w' = mode_get md w'.
+Proof.
+  intros H H' Hne. destruct md as [[[a b] c] e].
+  destruct (w4_cases w H) as [-> | [-> | [-> | ->]]]; destruct (w4_cases w' H') as [-> | [-> | [-> | ->]]];
+    try reflexivity; congruence.
+Qed.
+
+Lemma name_step_ok w ex d st bs d' bs' :
+  w < 4 -> srel d st -> cov_add_name d w ex bs = Some (d', bs') ->
+  exists st', h_name st w ex (mkS bs None) = H_cont st' (mkS bs' None) /\ srel d' st'.
+Proof.
+  intros Hw R H. unfold cov_add_name in H.
+  destruct (add_name d w ex bs) as [[d1 b1]|] eqn:Ea; cbn [obnd] in H; [|discriminate].
+  unfold add_name in Ea.
+  destruct (rd_string bs) as [[s bs1]|] eqn:Es; cbn [obnd] in Ea; [|discriminate].
+  destruct (negb ((mode_get (d_table_mode d) w =? 0) || (mode_get (d_table_mode d) w =? (if ex then 2 else 1)))) eqn:Emode;
+    [discriminate|].
+  apply negb_false_iff in Emode.
+  set (next := match w with 0 => d_cn_next d | 1 => d_ts_next d | 2 => d_pn_next d | _ => d_ps_next d end) in Ea.
+  destruct (if ex then rd_uint bs1 else Some (next, bs1)) as [[k bs2]|] eqn:Ek; cbn [obnd] in Ea; [|discriminate].
+  set (tab := match w with 0 => d_cellnames d | 1 => d_textstrings d | 2 => d_propnames d | _ => d_propstrings d end) in Ea.
+  destruct (lookup tab k) eqn:El; [discriminate|].
+  (* the reader *)
+  assert (Hstr : forall nul, s_string nul (mkS bs None) = ROk s (mkS bs1 None)) by (intros; apply s_string_ok; exact Es).
+  set (e := mkTE (if (w =? 3) && negb (nonempty s) then None else Some s) []).
+  assert (Heok : te_ok (negb (w =? 3)) e s).
+  { unfold te_ok, e. cbn [te_bytes]. destruct (w =? 3); cbn [negb andb]; [|reflexivity].
+    destruct s; reflexivity. }
+  assert (Hk : k = (if ex then k else t_count (get_table st w)) /\ (ex = true -> k < lim26) /\ bs2 = b1 /\ d' = d1 /\ bs' = b1
+               /\ (if ex then rd_uint bs1 = Some (k, bs2) else bs2 = bs1)).
+  { destruct ex.
+    - rewrite Ek in H. destruct (k <? lim26) eqn:E26; [|discriminate]. injection H as <- <-. injection Ea as _ <-.
+      apply N.ltb_lt in E26. repeat split; auto.
+    - injection H as <- <-. injection Ek as <- <-. injection Ea as _ <-.
+      assert (Hm : mode_get (d_table_mode d) w <> 2).
+      { apply orb_prop in Emode. destruct Emode as [E|E]; apply N.eqb_eq in E; rewrite E; discriminate. }
+      pose proof (sr_next _ _ R w Hw Hm) as Hn. unfold next_of in Hn. fold next in Hn. repeat split; auto; discriminate. }
+  destruct Hk as (Hkk & H26 & -> & -> & -> & Hrd).
+  exists (set_table st w (tab_set (get_table st w) k e) (RT_name w k)). split.
+  - unfold h_name. rewrite Hstr. fold e. destruct ex.
+    + rewrite (s_uint_ok _ _ _ Hrd). destruct (alloc_ok_26 k (t_count (get_table st w)) (H26 eq_refl)) as [A1 A2].
+      rewrite A1, A2. reflexivity.
+    + subst bs1. unfold tab_append. rewrite <- Hkk. reflexivity.
+  - (* the relation *)
+    assert (Hnext : ex = false -> t_count (tab_set (get_table st w) k e) = next + 1).
+    { intros ->. rewrite Hkk. rewrite tab_set_count_append.
+      assert (Hm : mode_get (d_table_mode d) w <> 2).
+      { apply orb_prop in Emode. destruct Emode as [E|E]; apply N.eqb_eq in E; rewrite E; discriminate. }
+      pose proof (sr_next _ _ R w Hw Hm) as Hn. unfold next_of in Hn. fold next in Hn. rewrite Hn. reflexivity. }
+    assert (Hmode' : forall w', w' < 4 -> mode_get (mode_set (d_table_mode d) w (if ex then 2 else 1)) w' <> 2 ->
+                     (w' = w /\ ex = false) \/ (w' <> w /\ mode_get (d_table_mode d) w' <> 2)).
+    { intros w' Hw' Hm. destruct (N.eq_dec w w') as [<-|Hne].
+      - rewrite mode_get_set_same in Hm by exact Hw. destruct ex; [congruence|auto].
+      - rewrite mode_get_set_other in Hm by assumption. right. split; [congruence|exact Hm]. }
+    clear Hstr Hrd Ek Es.
+    destruct (w4_cases w Hw) as [-> | [-> | [-> | ->]]]; cbn [N.eqb Pos.eqb negb] in Heok;
+      injection Ea as <-; subst tab next; destruct R;
+      (constructor; proj_simpl; cbn [set_table get_table] in *; auto;
+       try (apply tab_rel_set; assumption);
+       try (apply props_empty_set; [assumption|reflexivity]);
+       try reflexivity).
+    all: try (cbn [lookup]; rewrite N.eqb_refl; discriminate).
+    all: try (intros w' Hw' Hm'; destruct (Hmode' w' Hw' Hm') as [[-> Hex]|[Hne Hm]];
+              [ cbn [next_of get_table]; proj_simpl; rewrite (Hnext Hex); reflexivity
+              | specialize (sr_next0 w' Hw' Hm);
+                destruct (w4_cases w' Hw') as [-> | [-> | [-> | ->]]]; cbn in *; congruence ]).
+    + (* cell-name properties of the new entry *)
+      proj_simpl. intros k' s' e' Hl. cbn [lookup] in Hl. destruct (k =? k') eqn:E.
+      * apply N.eqb_eq in E. subst k'. rewrite tab_set_get_same. intros [= <-].
+        rewrite (cn_props_of_undefined _ _ _ sr_cnkeys0 El). reflexivity.
+      * apply N.eqb_neq in E. intros Hg. destruct (sr_cn0 _ _ Hl) as (e0 & Hg0 & _).
+        rewrite (tab_set_get_other _ _ _ _ _ E Hg0) in Hg. injection Hg as <-. eapply sr_cnprops0; eassumption.
+    + intros n p Hin. cbn [lookup]. destruct (k =? n); [discriminate|]. eapply sr_cnkeys0. exact Hin.
+    + proj_simpl. cbn [tab_set t_items]. intros ke p [<-|Hin] Hp; [destruct Hp|]. eapply sr_cnall0; eassumption.
+Qed.
+
+(* ================================================================== END: finalize vs finish *)
+Lemma omap_omapc {A A' B B'} (f : A -> option B) (g : A' -> outcome B') (wa : A -> A') (wb : B -> B') :
+  (forall a b, f a = Some b -> g (wa a) = Ok (wb b)) ->
+  forall l l', omap f l = Some l' -> omapc g (map wa l) = Ok (map wb l').
+Proof.
+  intros H. induction l as [|a t IH]; intros l' Hl; cbn [omap] in Hl.
+  - injection Hl as <-. reflexivity.
+  - destruct (f a) as [b|] eqn:E; cbn [obnd] in Hl; [|discriminate].
+    destruct (omap f t) as [r|] eqn:E2; cbn [obnd] in Hl; [|discriminate]. injection Hl as <-.
+    cbn [map omapc]. rewrite (H _ _ E). cbn [obind]. rewrite (IH _ eq_refl). reflexivity.
+Qed.
+Lemma omapc_app {A B} (f : A -> outcome B) l1 l2 r1 r2 :
+  omapc f l1 = Ok r1 -> omapc f l2 = Ok r2 -> omapc f (l1 ++ l2) = Ok (r1 ++ r2).
+Proof.
+  revert r1. induction l1 as [|a t IH]; intros r1 H1 H2; cbn [omapc app] in *.
+  - injection H1 as <-. exact H2.
+  - destruct (f a) as [b| | | | |]; cbn [obind] in *; try discriminate.
+    destruct (omapc f t) as [r| | | | |]; cbn [obind] in *; try discriminate.
+    injection H1 as <-. rewrite (IH _ eq_refl H2). reflexivity.
+Qed.
+Lemma omapc_all {A B} (f : A -> outcome B) l :
+  (forall a, In a l -> exists b, f a = Ok b) -> exists r, omapc f l = Ok r.
+Proof.
+  induction l as [|a t IH]; intros H; [eexists; reflexivity|].
+  destruct (H a (or_introl eq_refl)) as (b & Hb). destruct IH as (r & Hr); [intros; apply H; right; assumption|].
+  exists (b :: r). cbn [omapc]. rewrite Hb. cbn [obind]. rewrite Hr. reflexivity.
+Qed.
+Lemma omap_In {A B} (f : A -> option B) : forall l l' a, omap f l = Some l' -> In a l -> exists b, f a = Some b.
+Proof.
+  induction l as [|x t IH]; intros l' a H Hin; [destruct Hin|]. cbn [omap] in H.
+  destruct (f x) as [b|] eqn:E; cbn [obnd] in H; [|discriminate].
+  destruct (omap f t) as [r|] eqn:E2; cbn [obnd] in H; [|discriminate].
+  destruct Hin as [<-|Hin]; [eauto|]. eapply IH; eauto.
+Qed.
+
+(* ---- one property *)
+Lemma fin_name_ok (t : table) (rt : rtable) r s :
+  tab_rel true t rt -> resolve_nref t r = Some (NName s) -> fin_name rt r = Ok (cstr s).
+Proof.
+  intros Ht. destruct r as [s0|k]; cbn [resolve_nref fin_name].
+  - intros [= <-]. reflexivity.
+  - destruct (lookup t k) as [s0|] eqn:El; [|discriminate]. intros [= <-].
+    destruct (Ht _ _ El) as (e & Hg & Hb). cbn [te_ok] in Hb. rewrite Hg, Hb. reflexivity.
+Qed.
+
+Lemma resolve_nref_name t r r' : resolve_nref t r = Some r' -> exists s, r' = NName s.
+Proof. destruct r as [s|k]; cbn; [intros [= <-]; eauto|]. destruct (lookup t k); [intros [= <-]; eauto|discriminate]. Qed.
+
+Lemma fin_val_ok (t : table) (rt : rtable) v v' :
+  tab_rel false t rt -> resolve_pval t v = Some v' -> fin_val rt (view_val v) = Ok (view_val v').
+Proof.
+  intros Ht. destruct v; cbn [resolve_pval view_val fin_val]; try (intros [= <-]; reflexivity).
+  destruct (lookup t n) as [s|] eqn:El; [|discriminate]. intros [= <-].
+  destruct (Ht _ _ El) as (e & Hg & Hb). cbn [te_ok] in Hb. rewrite Hg. cbn [view_val].
+  destruct (te_bytes e); subst; reflexivity.
+Qed.
+
+Lemma fin_prop_ok d st p p' :
+  srel d st -> resolve_prop (d_propnames d) (d_propstrings d) p = Some p' ->
+  fin_prop (q_pn st) (q_ps st) (wprop p) = Ok (view_prop cname p').
+Proof.
+  intros R H. unfold resolve_prop in H.
+  destruct (resolve_nref (d_propnames d) (p_name p)) as [n|] eqn:En; cbn [obnd] in H; [|discriminate].
+  destruct (omap (resolve_pval (d_propstrings d)) (p_vals p)) as [vs|] eqn:Ev; cbn [obnd] in H; [|discriminate].
+  injection H as <-. destruct (resolve_nref_name _ _ _ En) as (s & ->).
+  unfold fin_prop, wprop, view_prop. cbn [gp_name gp_vals p_name p_vals].
+  rewrite (fin_name_ok _ _ _ _ (sr_pn _ _ R) En). cbn [obind].
+  rewrite (omap_omapc (resolve_pval (d_propstrings d)) (fin_val (q_ps st)) view_val view_val
+             (fun a b Hab => fin_val_ok _ _ _ _ (sr_ps _ _ R) Hab) _ _ Ev).
+  reflexivity.
+Qed.
+
+Lemma fin_props_ok d st l l' :
+  srel d st -> omap (resolve_prop (d_propnames d) (d_propstrings d)) l = Some l' ->
+  fin_props (q_pn st) (q_ps st) (map wprop l) = Ok (map (view_prop cname) l').
+Proof.
+  intros R H. unfold fin_props.
+  exact (omap_omapc _ _ wprop (view_prop cname) (fun a b Hab => fin_prop_ok d st a b R Hab) _ _ H).
+Qed.
+
+(* ---- elements: the label text is resolved in the first loop over the cells, the cell references in the second *)
+Definition lab1 (ts : table) (e : element) : element :=
+  match e with
+  | E_text (NNum k) l t x y r => match lookup ts k with Some s => E_text (NName s) l t x y r | None => e end
+  | _ => e
+  end.
+
+Lemma tab_get_props_empty rt k e : props_empty rt -> tab_get rt k = Some e -> te_props e = [].
+Proof. intros Hp Hg. destruct (tab_get_In _ _ _ Hg) as [->|Hin]; [reflexivity|]. exact (Hp _ Hin). Qed.
+
+Lemma fin_label_ok cn ts rts e e' wps :
+  tab_rel true ts rts -> props_empty rts -> resolve_elem cn ts e = Some e' ->
+  fin_label rts (welem e, wps) = Ok (welem (lab1 ts e), wps).
+Proof.
+  intros Ht He H. destruct e; try reflexivity.
+  destruct s as [s|k]; [reflexivity|].
+  cbn [resolve_elem resolve_nref] in H. destruct (lookup ts k) as [s|] eqn:El; cbn [obnd] in H; [|discriminate].
+  destruct (Ht _ _ El) as (e0 & Hg & Hb). cbn [te_ok] in Hb.
+  unfold fin_label, welem. cbn [view_elem fst snd lab1]. rewrite El, Hg, Hb.
+  rewrite (tab_get_props_empty _ _ _ He Hg). cbn [omapc obind]. rewrite app_nil_r. reflexivity.
+Qed.
+
+Lemma fin_ref_ok cn ts rcn names e e' :
+  tab_rel true cn rcn -> resolve_elem cn ts e = Some e' ->
+  fin_ref rcn names (welem (lab1 ts e)) = Ok (view_elem cname (fun r => existsb (bytes_eqb (cname r)) names) e').
+Proof.
+  intros Hc H. destruct e; cbn [resolve_elem] in H; try (injection H as <-; reflexivity).
+  - (* text *)
+    destruct (resolve_nref ts s) as [s'|] eqn:Er; cbn [obnd] in H; [|discriminate]. injection H as <-.
+    destruct (resolve_nref_name _ _ _ Er) as (nm & ->).
+    destruct s as [s|k]; cbn [resolve_nref] in Er.
+    + injection Er as <-. reflexivity.
+    + destruct (lookup ts k) as [s0|] eqn:El; [|discriminate]. injection Er as <-.
+      cbn [lab1]. rewrite El. reflexivity.
+  - (* placement *)
+    destruct (resolve_nref cn c) as [c'|] eqn:Er; cbn [obnd] in H; [|discriminate]. injection H as <-.
+    destruct (resolve_nref_name _ _ _ Er) as (nm & ->).
+    unfold welem. cbn [lab1 view_elem fin_ref]. rewrite (fin_name_ok _ _ _ _ Hc Er). reflexivity.
+Qed.
+
+(* ---- cells, first loop *)
+Definition raw_name (cn : table) (r : nref) : list N :=
+  match r with NName s => s | NNum k => match lookup cn k with Some s => s | None => [] end end.
+Definition wcell1 (d : dstate) (c : cell) : rcell :=
+  mkGC (NName (raw_name (d_cellnames d) (c_name c)))
+       (map wprop (c_props c) ++
+        match c_name c with NNum k => map wprop (cn_props_of (d_cn_props d) k) | NName _ => [] end)
+       (map (fun ep => (welem (lab1 (d_textstrings d) (fst ep)), map wprop (snd ep))) (c_elems c)).
+
+Lemma tab_clear_other t k k' : k <> k' -> tab_get (tab_clear_props t k) k' = tab_get t k'.
+Proof.
+  intros Hne. unfold tab_clear_props. destruct (tab_get t k) as [e|]; [|reflexivity].
+  apply tab_get_cons_other. exact Hne.
+Qed.
+
+Lemma nums_cons_name c cs s : c_name c = NName s -> nums (c :: cs) = nums cs.
+Proof. intros H. unfold nums. cbn [flat_map]. rewrite H. reflexivity. Qed.
+Lemma nums_cons_num c cs k : c_name c = NNum k -> nums (c :: cs) = k :: nums cs.
+Proof. intros H. unfold nums. cbn [flat_map]. rewrite H. reflexivity. Qed.
+
+Lemma fin_cells1_ok d st : srel d st ->
+  forall cs rcn l, NoDup (nums cs) ->
+    (forall k, In k (nums cs) -> tab_get rcn k = tab_get (q_cn st) k) ->
+    omap (resolve_cell d) cs = Some l ->
+    fin_cells1 rcn (q_ts st) (map wcell cs) = Ok (map (wcell1 d) cs).
+Proof.
+  intros R. induction cs as [|c cs IH]; intros rcn l Hnd Hag H; [reflexivity|].
+  cbn [omap] in H. destruct (resolve_cell d c) as [c'|] eqn:Ec; cbn [obnd] in H; [|discriminate].
+  destruct (omap (resolve_cell d) cs) as [l0|] eqn:Ecs; cbn [obnd] in H; [|discriminate]. clear H.
+  unfold resolve_cell in Ec.
+  destruct (resolve_nref (d_cellnames d) (c_name c)) as [nm|] eqn:En; cbn [obnd] in Ec; [|discriminate].
+  destruct (omap _ (rev (c_props c))) as [own|]; cbn [obnd] in Ec; [|discriminate].
+  match type of Ec with obnd ?x _ = _ => destruct x as [tabp|] end; cbn [obnd] in Ec; [|discriminate].
+  destruct (omap _ (rev (c_elems c))) as [es|] eqn:Ees; cbn [obnd] in Ec; [|discriminate]. clear Ec.
+  cbn [map fin_cells1 wcell gc_name gc_props gc_elems].
+  (* the elements *)
+  assert (Hes : omapc (fin_label (q_ts st)) (map (fun ep => (welem (fst ep), map wprop (snd ep))) (c_elems c))
+                = Ok (map (fun ep => (welem (lab1 (d_textstrings d) (fst ep)), map wprop (snd ep))) (c_elems c))).
+  { assert (Hall : forall ep, In ep (c_elems c) -> exists e', resolve_elem (d_cellnames d) (d_textstrings d) (fst ep) = Some e').
+    { intros ep Hin. apply in_rev in Hin. destruct (omap_In _ _ _ _ Ees Hin) as (b & Hb).
+      destruct (resolve_elem (d_cellnames d) (d_textstrings d) (fst ep)); [eauto|discriminate]. }
+    clear Ees. induction (c_elems c) as [|ep t IHt]; [reflexivity|].
+    cbn [map omapc]. destruct (Hall ep (or_introl eq_refl)) as (e' & He').
+    rewrite (fin_label_ok _ _ _ _ _ _ (sr_ts _ _ R) (sr_ts_e _ _ R) He'). cbn [obind].
+    rewrite IHt by (intros; apply Hall; right; assumption). reflexivity. }
+  destruct (c_name c) as [s|k] eqn:Ename.
+  - (* by name *)
+    cbn [obind]. rewrite Hes. cbn [obind]. rewrite (nums_cons_name _ _ _ Ename) in Hnd, Hag.
+    rewrite (IH rcn l0 Hnd Hag eq_refl).
+    cbn [obind map]. unfold wcell1 at 2. rewrite Ename. cbn [raw_name]. rewrite app_nil_r. reflexivity.
+  - (* by number *)
+    cbn [resolve_nref] in En. destruct (lookup (d_cellnames d) k) as [s|] eqn:El; [|discriminate].
+    destruct (sr_cn _ _ R _ _ El) as (e & Hg & Hb). cbn [te_ok] in Hb.
+    rewrite (nums_cons_num _ _ _ Ename) in Hnd, Hag.
+    rewrite (Hag k (or_introl eq_refl)), Hg, Hb. cbn [obind]. rewrite Hes. cbn [obind].
+    apply NoDup_cons_iff in Hnd. destruct Hnd as [Hnot Hnd].
+    rewrite (IH (tab_clear_props rcn k) l0 Hnd); [| |reflexivity].
+    2:{ intros k' Hk'. rewrite tab_clear_other by (intros ->; exact (Hnot Hk')). apply Hag. right. exact Hk'. }
+    cbn [obind map]. unfold wcell1 at 2. rewrite Ename. cbn [raw_name]. rewrite El.
+    rewrite (sr_cnprops _ _ R _ _ _ El Hg). reflexivity.
+Qed.
+
+(* ---- cells, second loop *)
+Lemma fin_cell2_ok d st names c c' :
+  srel d st -> resolve_cell d c = Some c' ->
+  fin_cell2 (q_cn st) (q_pn st) (q_ps st) names (wcell1 d c) = Ok (view_cell names c').
+Proof.
+  intros R H. unfold resolve_cell in H.
+  destruct (resolve_nref (d_cellnames d) (c_name c)) as [nm|] eqn:En; cbn [obnd] in H; [|discriminate].
+  destruct (omap (resolve_prop (d_propnames d) (d_propstrings d)) (rev (c_props c))) as [own|] eqn:Eown;
+    cbn [obnd] in H; [|discriminate].
+  match type of H with obnd ?x _ = _ => destruct x as [tabp|] eqn:Etab end; cbn [obnd] in H; [|discriminate].
+  match type of H with obnd (omap ?f ?l) _ = _ => destruct (omap f l) as [es|] eqn:Ees end; cbn [obnd] in H; [|discriminate].
+  injection H as <-.
+  unfold fin_cell2, view_cell. cbn [wcell1 gc_elems gc_props c_name c_props c_elems].
+  (* elements *)
+  rewrite <- map_rev.
+  rewrite (omap_omapc _
+             (fun ep : relem * list rprop =>
+                obind (fin_ref (q_cn st) names (fst ep)) (fun e =>
+                obind (fin_props (q_pn st) (q_ps st) (rev (snd ep))) (fun pr => Ok (e, pr))))
+             (fun ep : element * list prop => (welem (lab1 (d_textstrings d) (fst ep)), map wprop (snd ep)))
+             (fun ep' : element * list prop =>
+                (view_elem cname (fun r => existsb (bytes_eqb (cname r)) names) (fst ep'), map (view_prop cname) (snd ep')))
+             _ _ _ Ees).
+  2:{ intros [e ps] [e' ps'] Hep. cbn [fst snd] in *.
+      destruct (resolve_elem (d_cellnames d) (d_textstrings d) e) as [e1|] eqn:Ee; cbn [obnd] in Hep; [|discriminate].
+      destruct (omap (resolve_prop (d_propnames d) (d_propstrings d)) (rev ps)) as [ps1|] eqn:Ep; cbn [obnd] in Hep; [|discriminate].
+      injection Hep as <- <-.
+      rewrite (fin_ref_ok _ _ _ names _ _ (sr_cn _ _ R) Ee). cbn [obind].
+      rewrite <- map_rev. rewrite (fin_props_ok _ _ _ _ R Ep). reflexivity. }
+  cbn [obind].
+  (* properties *)
+  assert (Hp : fin_props (q_pn st) (q_ps st)
+                 (rev (map wprop (c_props c) ++
+                       match c_name c with NNum k => map wprop (cn_props_of (d_cn_props d) k) | NName _ => [] end))
+               = Ok (map (view_prop cname) (tabp ++ own))).
+  { rewrite rev_app_distr, map_app. unfold fin_props. apply omapc_app.
+    - destruct (c_name c) as [s|k].
+      + injection Etab as <-. reflexivity.
+      + rewrite <- map_rev. exact (fin_props_ok _ _ _ _ R Etab).
+    - rewrite <- map_rev. exact (fin_props_ok _ _ _ _ R Eown). }
+  rewrite Hp. cbn [obind]. f_equal. f_equal.
+  (* name *)
+  unfold cell_cname, cname. cbn [gc_name].
+  destruct (c_name c) as [s|k]; cbn [resolve_nref raw_name] in *.
+  - injection En as <-. reflexivity.
+  - destruct (lookup (d_cellnames d) k); [|discriminate]. injection En as <-. reflexivity.
+Qed.
+
+Lemma wcell1_cname d c c' : resolve_cell d c = Some c' -> cell_cname (wcell1 d c) = cname (c_name c').
+Proof.
+  unfold resolve_cell. destruct (resolve_nref (d_cellnames d) (c_name c)) as [nm|] eqn:En; cbn [obnd]; [|discriminate].
+  destruct (omap _ (rev (c_props c))); cbn [obnd]; [|discriminate].
+  match goal with |- obnd ?x _ = _ -> _ => destruct x end; cbn [obnd]; [|discriminate].
+  destruct (omap _ (rev (c_elems c))); cbn [obnd]; [|discriminate]. intros [= <-].
+  unfold cell_cname, cname. cbn [wcell1 gc_name c_name].
+  destruct (c_name c) as [s|k]; cbn [resolve_nref raw_name] in *.
+  - injection En as <-. reflexivity.
+  - destruct (lookup (d_cellnames d) k); [|discriminate]. injection En as <-. reflexivity.
+Qed.
+
+Lemma omap_map2 {A B C} (f : A -> option B) (g : A -> C) (h : B -> C) :
+  (forall a b, f a = Some b -> g a = h b) -> forall l l', omap f l = Some l' -> map g l = map h l'.
+Proof.
+  intros H. induction l as [|a t IH]; intros l' Hl; cbn [omap] in Hl.
+  - injection Hl as <-. reflexivity.
+  - destruct (f a) as [b|] eqn:E; cbn [obnd] in Hl; [|discriminate].
+    destruct (omap f t) as [r|] eqn:E2; cbn [obnd] in Hl; [|discriminate]. injection Hl as <-.
+    cbn [map]. rewrite (H _ _ E), (IH _ eq_refl). reflexivity.
 Qed.
